@@ -156,6 +156,14 @@ def mentioned_names() -> set:
 
 # values of standard-library constants evo's code may name
 _LIB_CONSTANTS = {"codecs.BOM_UTF8": b"\xef\xbb\xbf"}
+_FUNC_SYNONYMS = {
+    "numpy.absolute": "numpy.abs",
+    "numpy.degrees": "numpy.rad2deg",
+    "numpy.radians": "numpy.deg2rad",
+    "numpy.row_stack": "numpy.vstack",
+    "numpy.true_divide": "numpy.divide",
+    "numpy.amax": "numpy.max", "numpy.amin": "numpy.min",
+}
 _ATTR_ALIASES = {"numpy.shape": "shape", "numpy.ndim": "ndim",
                  "numpy.size": "size", "numpy.transpose": "T"}
 
@@ -257,6 +265,7 @@ class Interp:
         self.attrs: Dict[Tuple[T, str], T] = {}
         self.loop_counter = 0
         self.try_counter = 0
+        self.range_len: Dict[int, T] = {}
         self.loop_nodes: Dict[int, ast.AST] = {}
         self.loops: Tuple[int, ...] = ()
         self.tries: Tuple = ()
@@ -837,9 +846,25 @@ class Interp:
         for tnode, val in self.loop_bindings(target, it, lid):
             self.assign(tnode, val, frame, live, stmt)
 
+    def _range_len(self, it: T) -> Optional[T]:
+        """X if `it` is range(len(X)): the index loop over X"""
+        iu = self.unname(it)
+        if tm.callee_name(iu) == "builtins.range" and \
+                len(iu.args[1]) == 1 and not iu.args[2]:
+            n_ = self.unname(iu.args[1][0])
+            if tm.callee_name(n_) == "builtins.len" and \
+                    len(n_.args[1]) == 1 and not n_.args[2] and \
+                    self.unname(n_.args[1][0]).op not in ("tuple", "list"):
+                return n_.args[1][0]
+        return None
+
     def loop_bindings(self, target, it: T, lid: int):
         """[(target node, element term)] for iterating `it`"""
         name = tm.callee_name(it)
+        if name == "builtins.enumerate" and isinstance(target, ast.Name) \
+                and lid in self.range_len:
+            # `for i in range(len(X))`, read as `for i, _ in enumerate(X)`
+            return [(target, T("index", lid))]
         if name == "builtins.zip" and isinstance(target, (ast.Tuple, ast.List)) \
                 and len(target.elts) == len(it.args[1]) and not it.args[2]:
             out = []
@@ -894,17 +919,19 @@ class Interp:
                           for st in s.body for n in ast.walk(st))
         if itu.op in ("tuple", "list") and 0 < len(itu.args) <= 8 and \
                 not any(x.op == "star" for x in itu.args) and \
-                not s.orelse and has_jump and not nested_loop:
+                has_jump and not nested_loop:
             return self._unroll(s, list(itu.args), frame, live)
         if itu.op in ("tuple", "list") and 0 < len(itu.args) <= 8 and \
                 not any(x.op == "star" for x in itu.args) and \
-                not s.orelse and not has_jump:
+                not has_jump:
             # small literal iteration space: unroll (exact)
             for x in itu.args:
                 if tm.is_const(live, False):
                     break
                 self.assign(s.target, x, frame, live, s)
                 live = self.exec_block(s.body, frame, live)
+            if s.orelse and not tm.is_const(live, False):
+                live = self.exec_block(s.orelse, frame, live)
             return live
         if is_range_literal(itu) and not s.orelse and not has_jump:
             for k in range_values(itu):
@@ -938,6 +965,12 @@ class Interp:
                     fresh_attrs.add(key)
                     self.attrs[key] = T("loopvar", f"{bn}.{an}", lid,
                                         attr_inits[key])
+        rl = self._range_len(it) if isinstance(s.target, ast.Name) else None
+        if rl is not None:
+            # for i in range(len(X)) ... X[i]: the same loop as
+            # for i, x in enumerate(X) — one term for both spellings
+            self.range_len[lid] = rl
+            it = tm.call(tm.glob("builtins.enumerate"), (rl,), ())
         self.emit("loop", s, live, frame, iter=it, lid=lid)
         self.bind_loop_target(s.target, it, lid, frame, live, s,
                               through_map=True)
@@ -1117,6 +1150,9 @@ class Interp:
                 self.attrs = self._join(lv, attrs, self.attrs)
                 out = tm.mk_or(out, lv)
             live = out
+        if s.orelse and not tm.is_const(live, False):
+            # for ... else: the else block runs on the paths without a break
+            live = self.exec_block(s.orelse, frame, live)
         if tm.is_const(live, False) and breaks:
             lv, env, attrs, _ = breaks.pop()
             frame.env, self.attrs, live = dict(env), dict(attrs), lv
@@ -1407,8 +1443,58 @@ class Interp:
             self.prog._new_opts = tab
         return tab.get(name)
 
+    def _record_fields(self, base: T) -> Optional[Dict[str, T]]:
+        """fields of a value built by calling a NamedTuple / dataclass of
+        the program (no hand-written constructor): name -> argument term"""
+        if base.op != "call" or base.args[0].op != "cls":
+            return None
+        c = self.prog.classes.get(base.args[0].args[0])
+        if c is None:
+            return None
+        rec = getattr(c, "_record", 0)
+        if rec == 0:
+            rec = None
+            is_nt = any(b.rsplit(".", 1)[-1] == "NamedTuple" for b in c.bases)
+            is_dc = any((ast.unparse(d.func) if isinstance(d, ast.Call)
+                         else ast.unparse(d)).rsplit(".", 1)[-1] == "dataclass"
+                        for d in c.node.decorator_list)
+            if (is_nt or is_dc) and not any(
+                    m in c.methods for m in ("__init__", "__new__",
+                                             "__post_init__")):
+                rec = [(st.target.id, st.value) for st in c.node.body
+                       if isinstance(st, ast.AnnAssign) and
+                       isinstance(st.target, ast.Name)]
+            c._record = rec
+        if rec is None:
+            return None
+        pos, kws = base.args[1], dict(base.args[2])
+        if len(pos) > len(rec) or any(x.op == "star" for x in pos) or \
+                "**" in kws:
+            return None
+        out = {}
+        for i, (fname, dflt) in enumerate(rec):
+            if i < len(pos):
+                out[fname] = pos[i]
+            elif fname in kws:
+                out[fname] = kws[fname]
+            elif isinstance(dflt, ast.Constant):
+                out[fname] = const(dflt.value)
+        return out
+
     def get_attr(self, base: T, name: str, frame: Frame, live: T,
                  node=None) -> T:
+        rec = self._record_fields(base)
+        if rec is not None and name in rec:
+            return rec[name]
+        if rec is not None:
+            # a property of the record: a function of its fields
+            c = self.prog.classes.get(base.args[0].args[0])
+            mth = self.prog.find_method(c, name)
+            if mth is not None and mth.is_property and \
+                    frame.depth < self.max_depth + 3 and \
+                    mth.qualname not in self.stack:
+                return self.inline_call(mth, {mth.params[0]: base}, frame,
+                                        live, node, c)
         if base.op == "param" and base.args[0] == "args" and \
                 (base, name) not in self.attrs:
             dv = self._new_option_default(name)
@@ -1602,6 +1688,11 @@ class Interp:
 
     def subscript(self, base: T, idx: T) -> T:
         b = self.unname(base)
+        if idx.op == "index" and self.range_len.get(idx.args[0]) is not None \
+                and (self.range_len[idx.args[0]] is base or
+                     self.unname(self.range_len[idx.args[0]]) is b):
+            # X[i] inside `for i in range(len(X))`: the loop's element
+            return T("elem", self.range_len[idx.args[0]], idx.args[0])
         if b.op == "upd" and b.args[1] is idx:
             return b.args[2]           # read back what was just stored
         if b.op == "ite":
@@ -1966,6 +2057,11 @@ class Interp:
         for g in n.generators:
             it = self.eval(g.iter, frame, cur_live)
             lid = self.new_loop(n)
+            rl = self._range_len(it) if isinstance(g.target, ast.Name) \
+                else None
+            if rl is not None:
+                self.range_len[lid] = rl
+                it = tm.call(tm.glob("builtins.enumerate"), (rl,), ())
             loops.append((it, lid))
             self.loops = self.loops + (lid,)
             cur_live = tm.mk_and(cur_live, T("iter", lid))
@@ -2057,6 +2153,31 @@ class Interp:
                     if k < len(args):
                         parts.append(args[k])
                 return T("fstr", *parts)
+        if fn.op == "global" and fn.args[0] in _FUNC_SYNONYMS:
+            # one term for the spellings of the same library function
+            fn = tm.glob(_FUNC_SYNONYMS[fn.args[0]])
+        if fn.op == "global" and len(args) == 1 and not kwargs and \
+                args[0].op != "star":
+            g_ = fn.args[0]
+            if g_ == "numpy.negative":
+                return T("unop", "USub", args[0])
+            if g_ == "numpy.flatnonzero":
+                return tm.sub(tm.call(tm.glob("numpy.where"), (args[0],), ()),
+                              const(0))
+            if g_ == "numpy.nonzero":
+                fn = tm.glob("numpy.where")
+            if g_ == "numpy.identity":
+                fn = tm.glob("numpy.eye")
+            if g_ == "numpy.transpose":
+                return tm.call(tm.attr(args[0], "transpose"), (), ())
+        if fn.op == "attr" and fn.args[1] in ("argmin", "argmax") and \
+                not args and not kwargs:
+            # a.argmin() is np.argmin(a)
+            return self.do_call(tm.glob("numpy." + fn.args[1]), [fn.args[0]],
+                                [], node, frame, live)
+        if fn.op == "attr" and fn.args[1] == "__getitem__" and \
+                len(args) == 1 and not kwargs and args[0].op != "star":
+            return tm.sub(fn.args[0], args[0])
         if fn.op == "global" and fn.args[0] in _ATTR_ALIASES and \
                 len(args) == 1 and not kwargs and args[0].op != "star":
             # np.shape(a) is a.shape etc.: one term for both spellings
@@ -2232,6 +2353,22 @@ class Interp:
                 if name.endswith("filterfalse"):
                     cond = tm.mk_not(cond)
                 return T("comp", "gen", el, ((args[1], lid),), (cond,))
+        if name == "builtins.map" and len(args) == 2 and not kwargs and \
+                self.unname(args[0]).op in ("closure", "func", "global",
+                                            "attr", "bound", "cls"):
+            # map(F, X) is the generator expression (F(x) for x in X)
+            its = literal_items(args[1], self.unname)
+            if its is not None and len(its) <= 8:
+                return T("tuple", *[self.do_call(
+                    self.unname(args[0]) if self.unname(args[0]).op in (
+                        "closure", "func") else args[0], [x], [], node,
+                    frame, live) for x in its])
+            lid = self.new_loop(node)
+            el = T("elem", args[1], lid)
+            fu = self.unname(args[0])
+            val = self.do_call(fu if fu.op in ("closure", "func") else
+                               args[0], [el], [], node, frame, live)
+            return T("comp", "gen", val, ((args[1], lid),), ())
         if name == "functools.reduce" and len(args) in (2, 3) and not kwargs:
             # a fold over a completely known sequence: unrolled
             its = literal_items(args[1], self.unname)
@@ -2285,6 +2422,10 @@ class Interp:
             au = self.unname(args[0])
             if au.op in ("tuple", "list"):
                 return T(name.split(".")[1], *au.args)
+            if name == "builtins.list" and au.op == "comp" and \
+                    au.args[0] == "gen":
+                # list(<generator expression>) is the list comprehension
+                return T("comp", "list", *au.args[1:])
 
         if target is not None:
             self.stats["resolved_evo"] += 1
